@@ -17,7 +17,7 @@
 (***************************************************************************)
 EXTENDS Integers, Sequences, FiniteSets, TLC, SequencesExt, FiniteSetsExt, Functions, Json, IOUtils
 
-CONSTANTS Family,       \* "pair" | "eam" | "fs" | "adp" | "funcfl" | "eam_under" | "fs_under" | "eam_foreign" | "fs_foreign"
+CONSTANTS Family,       \* "pair" | "eam" | "fs" | "adp" | "funcfl" | "eam_under" | "fs_under" | "eam_foreign" | "fs_foreign" | "pair_dup"
           Targets,      \* set of target names explored by this configuration
           MaxSp,        \* species ranks are 1..MaxSp
           MaxPots,      \* max number of declared pair potentials (pair family)
@@ -79,6 +79,15 @@ PairModels(Tg) ==
                t \in Tg, n \in NRs, ps \in PotSeqsUpTo(MaxPots)} :
       \* delpot = cutoff/(ngrid-4) is undefined for ngrid = 4: outside C02's domain (it is C16's subject)
       ~(mm.tgt = "DLPOLY" /\ mm.nr = 4)}
+
+\* a Python-API list may name one pair of labels more than once (potable refuses such a file): every potential still gets
+\* its block, in list order
+PairDupModels(Tg) ==
+  {mm \in {[fam |-> "pair", tgt |-> t, nr |-> n, nrho |-> 0, pots |-> ps, els |-> <<>>,
+            embedDecl |-> {}, densDecl |-> {}, dip |-> <<>>, quad |-> <<>>] :
+               t \in Tg, n \in NRs, ps \in UNION {[1..k -> Sp \X Sp] : k \in 2..3}} :
+      /\ \E i, j \in 1..Len(mm.pots) : i # j /\ mm.pots[i] = mm.pots[j]
+      /\ ~(mm.tgt = "DLPOLY" /\ mm.nr = 4)}
 
 \* EAM family: els is the order in which the elements reach the writer (= declaration order of the embedding
 \* entries, followed by density-only species).  pots: any subset of unordered pairs, each in one orientation.
@@ -152,6 +161,7 @@ Models == CASE Family = "pair" -> PairModels(Targets)
             [] Family = "funcfl" -> FuncflModels(Targets)
             [] Family = "eam_under" -> EamUnder(Targets)
             [] Family = "fs_under" -> FsUnder(Targets)
+            [] Family = "pair_dup" -> PairDupModels(Targets)
             [] Family = "eam_foreign" -> EamForeign(Targets)
             [] Family = "fs_foreign" -> FsForeign(Targets)
 
@@ -417,7 +427,9 @@ C01_OneBlockPerPotential ==
   (AtStart /\ m.tgt = "LAMMPS") =>
     /\ Len(SelectSeq(plan, LAMBDA r : r.t = "title")) = Len(m.pots)
     /\ \A i \in 1..Len(m.pots) :
-         LET ts == SelectSeq(plan, LAMBDA r : r.t = "title" /\ {r.a, r.b} = {m.pots[i][1], m.pots[i][2]}) IN Len(ts) = 1
+         \* as many blocks with that pair's labels as the list has potentials for it (one, unless the caller listed a pair twice)
+         LET ts == SelectSeq(plan, LAMBDA r : r.t = "title" /\ {r.a, r.b} = {m.pots[i][1], m.pots[i][2]}) IN
+         Len(ts) = Cardinality({j \in 1..Len(m.pots) : {m.pots[j][1], m.pots[j][2]} = {m.pots[i][1], m.pots[i][2]}})
 C01_HeaderAgreesWithBody ==
   (AtStart /\ m.tgt = "LAMMPS") =>
     \A i \in 1..Len(plan) : plan[i].t = "hdr" =>
